@@ -20,7 +20,8 @@
 (*     FromStart (cheapest cost from the start).                                         *)
 (* (R) reference machines, one action per step of the code:                              *)
 (*     Configure (plan_on up to the first push: one configuration of the instance)      *)
-(*     A*  : APop (heappop; stale node skipped | goal -> return | visit + action order)  *)
+(*     A*  : APop (heappop; stale / superseded node skipped | goal -> return | visit +   *)
+(*           action order)                                                               *)
 (*           APush (one iteration of `for a in shuffled(actions)`: skip visited, skip    *)
 (*           not-improving, else push + best_in_queue_by_state + camefrom)               *)
 (*     BFS : BPop (popleft; goal -> return | visit + action order), BPush (append if     *)
@@ -28,12 +29,22 @@
 (*     ReturnNone (queue exhausted).  The seeded RNG is nondeterminism: any permutation  *)
 (*     of the actions when rnd = 1, any minimal-f node when tie = random.  The four      *)
 (*     `assert`s of the code are modelled: a failing one sends the machine to "error"    *)
-(*     (TLC found the one way in: see AssertionsOnlyOnInfiniteTies).                     *)
+(*     (invariant AssertionsNeverFire).                                                  *)
 (* (P) the property: Fails(...) = {} - the clauses of the statement as one operator      *)
 (*     used (i) as an invariant over the terminal states of (R) in mode "mc" and (ii) to *)
 (*     judge the results returned by the real code in mode "judge" (one Return event per *)
 (*     real run: path, actions of the returned policy along it, path_value | none |      *)
 (*     error).  Design invariants on (R): see the bottom of the module.                  *)
+(* Modes (IOEnv.MODE):                                                                  *)
+(*   "mc"    explores (R) over the batch: every configuration, every history; emits the  *)
+(*           oracle, the heuristic vectors (handed to the real A-star) and every outcome. *)
+(*   "judge" evaluates Fails on the Return events of the real planners (pipeline B,      *)
+(*           one-event traces): decides VIOLATION.                                       *)
+(*   "trace" replays the visit events recorded from the real planners (state expanded +  *)
+(*           order in which its actions were tried, observed through the MDP object      *)
+(*           handed to plan_on) on (R): every event must be explained by an enabled      *)
+(*           action and the machine must end with the same Return event; the design      *)
+(*           invariants are evaluated in every state of every trace.  Decides DRIFT.     *)
 EXTENDS Num, Json, IOUtils
 
 Batch  == JsonDeserialize(IOEnv.BATCH_FILE)     \* [graphs |-> <<...>>, runs |-> <<...>>]
@@ -222,7 +233,11 @@ APop ==
          IF best[s] # None THEN Finish("error", ResultErr("assert: previously visited node should not be best node"))
          ELSE /\ heap' = heap \ {n}
               /\ UNCHANGED <<iid, cid, phase, fifo, best, came, visited, tb, cur, todo, result, orc, verdict, l>>
-       ELSE IF best[s] # n THEN Finish("error", ResultErr("assert: newly visited state should be stored as best node"))
+       ELSE IF best[s] # n THEN
+         \* a superseded node of a not yet visited state (a cheaper node of s is still queued; the two can
+         \* only be popped in this order when both f are infinite): skipped, best_in_queue_by_state kept
+         /\ heap' = heap \ {n}
+         /\ UNCHANGED <<iid, cid, phase, fifo, best, came, visited, tb, cur, todo, result, orc, verdict, l>>
        ELSE IF IsGoal(G, s) THEN
          IF n[1] # 2 * n[3] THEN Finish("error", ResultErr("assert: heuristic_cost == cost_from_start at the goal"))
          ELSE Finish("done", ResultPath(G, came, s, n[3], visited))
@@ -352,19 +367,17 @@ Emit ==
 MachineSatisfiesC05 == phase = "done" => Fails(G, Alg, result, orc) = {}
 \* the statement, on every result returned by the real code (mode "judge")
 RealRunSatisfiesC05 == phase = "judged" => verdict = {}
-\* none of the four assertions of the code can fire on a consistent heuristic ...
+\* none of the three assertions of the code (stale node is not the stored best node, f = g at the goal,
+\* monotone f along an edge) can fire on a consistent heuristic.  (An earlier version of the code also
+\* asserted that a popped node of an unvisited state is the stored best one; TLC showed that this fails
+\* when the heuristic is infinite at states that cannot reach a goal - all their nodes tie on f = inf, so
+\* under fifo / random tie-breaking a superseded node is popped first.  The code now skips such a node,
+\* and so does APop.)
 AssertionsNeverFire == phase # "error"
-\* ... is FALSE for the machine as the code stands (found by TLC): when the heuristic is infinite at
-\* states that cannot reach a goal (the exact heuristic is), all their nodes tie on f = inf, so under
-\* fifo / random tie-breaking a superseded node of a state can be popped before the better one and
-\* "Newly visited state should be stored as best node" fires.  It needs f = inf at the top of the
-\* heap, i.e. no goal reachable from the start: the code raises where it should report "no plan".
-\* Design invariant: that is the only way into "error".
-AssertionsOnlyOnInfiniteTies ==
-  phase = "error" => /\ Alg = "astar" /\ Tie # "lifo"
-                     /\ orc.togo[G.start] >= INF
-                     /\ \E s \in Nodes(G) : H[s] >= INF
-                     /\ result.why = "assert: newly visited state should be stored as best node"
+\* a superseded node is only ever popped before the better one among infinite-f ties
+SupersededOnlyAmongInfiniteTies ==
+  (phase = "pop" /\ Alg = "astar") =>
+     \A n \in PopChoices(heap, Tie) : (n[4] \notin visited /\ best[n[4]] # n) => (n[1] >= INF /\ Tie # "lifo")
 \* instance filters
 InstanceWellFormed == phase = "oracle" =>
   /\ G.start \in Nodes(G)
